@@ -769,6 +769,7 @@ type seqRun struct {
 	rig        *Rig
 	m          *Model
 	tbl        map[int]string
+	tblAt      map[int]int // op id -> index of the operation that bound its handle
 	states     []*Model // states[j]: reference state after the first j operations
 	stable     []bool   // stable[j]: operation j was acknowledged with stable semantics
 	viol       *Violation
@@ -991,6 +992,7 @@ func (x *seqRun) main() {
 	x.m = NewModel(rootH, ra.Attr.FileID)
 	x.m.NoSpace = spec.knob("nospace", 0) != 0 || spec.knob("allocfail", 0) != 0
 	x.tbl = map[int]string{0: rootH}
+	x.tblAt = map[int]int{0: -1}
 	x.checked(&In{K: "fsinfo", Obj: rootH})
 	x.checked(&In{K: "pathconf", Obj: rootH})
 	x.nameMax = x.m.Lim.NameMax
@@ -1062,6 +1064,7 @@ func (x *seqRun) main() {
 		}
 		if x.m.NextID > before {
 			x.tbl[op.ID] = out.H
+			x.tblAt[op.ID] = i
 		}
 		x.res.count("ops", 1)
 		if out.Status != 0 {
@@ -1110,27 +1113,10 @@ func (x *seqRun) main() {
 				x.verfs = append(x.verfs, out.Verf)
 			}
 		}
-		st := false
-		if out.Status == 0 {
-			switch in.K {
-			case "create", "mkdir", "symlink", "remove", "rmdir", "setattr":
-				st = true
-			case "commit":
-				// a COMMIT of a sub-range only promises that range (RFC 1813); only
-				// whole-file COMMITs are taken as stable points
-				st = in.Off == 0 && in.Count == 0
-			case "rename":
-				st = !(in.Obj == in.Obj2 && in.Name == in.Name2)
-			case "write":
-				if out.Count > 0 {
-					if out.Commit >= 1 {
-						st = true
-					} else {
-						x.pending = true
-						x.res.count("unstable_writes", 1)
-					}
-				}
-			}
+		st := stableAck(in, out)
+		if out.Status == 0 && in.K == "write" && out.Count > 0 && !st {
+			x.pending = true
+			x.res.count("unstable_writes", 1)
 		}
 		if st {
 			x.pending = false
@@ -1152,6 +1138,27 @@ func (x *seqRun) main() {
 	if spec.knob("readback", 0) != 0 {
 		x.res.count("readbacks", 1)
 	}
+}
+
+// stableAck: the reply acknowledges the operation with stable semantics (it
+// must survive every later crash).
+func stableAck(in *In, out *Out) bool {
+	if out.Status != 0 {
+		return false
+	}
+	switch in.K {
+	case "create", "mkdir", "symlink", "remove", "rmdir", "setattr":
+		return true
+	case "commit":
+		// a COMMIT of a sub-range only promises that range (RFC 1813); only
+		// whole-file COMMITs are taken as stable points
+		return in.Off == 0 && in.Count == 0
+	case "rename":
+		return !(in.Obj == in.Obj2 && in.Name == in.Name2)
+	case "write":
+		return out.Count > 0 && out.Commit >= 1
+	}
+	return false
 }
 
 func describeIn(in *In) string {
